@@ -223,6 +223,13 @@ def check(run: Run) -> None:
         if isinstance(v, dict) and "NUMBER" in v and "BOOLEAN" in v:
             tp = v
     if tp is None:
+        # the same table as a module-level constant read by _compile_type
+        for n in walk_no_nested(ct.node):
+            if isinstance(n, ast.Name) and isinstance(n.ctx, ast.Load) and gm.has_const(n.id):
+                v = run.project.try_fold(gm, n)
+                if isinstance(v, dict) and "NUMBER" in v and "BOOLEAN" in v:
+                    tp = v
+    if tp is None:
         raise AnalysisError("_compile_type: constant type_patterns table not found")
     frags = {"NUMBER": tp["NUMBER"], "BOOLEAN": tp["BOOLEAN"]}
     for name, fn in (("DATE", "GBNFCompiler._compile_date"), ("ISO8601", "GBNFCompiler._compile_iso8601")):
@@ -359,6 +366,18 @@ def check(run: Run) -> None:
             table = gm.const_node(outer[0].iter.id)
             if isinstance(table, (ast.Tuple, ast.List)):
                 order = [" | ".join(ast.unparse(e) for e in r.elts) if isinstance(r, ast.Tuple) else ast.unparse(r) for r in table.elts]
+    # ... or the same two loops as one generator: `next((c for kind in TABLE for c in chain.constraints if isinstance(c, kind)), ...)`
+    if not order:
+        for g in walk_no_nested(cc.node):
+            if isinstance(g, (ast.GeneratorExp, ast.ListComp)) and len(g.generators) == 2 and isinstance(g.generators[0].target, ast.Name) and isinstance(g.generators[0].iter, ast.Name) and gm.has_const(g.generators[0].iter.id) and not g.generators[0].ifs:
+                kind = g.generators[0].target.id
+                inner = g.generators[1]
+                tests = [t for c in inner.ifs for t in ast.walk(c) if isinstance(t, ast.Call) and ast.unparse(t.func) == "isinstance" and len(t.args) == 2]
+                first_taken = isinstance(getattr(g, "_parent", None), ast.Call) and ast.unparse(g._parent.func) == "next" and g._parent.args and g._parent.args[0] is g  # type: ignore[attr-defined]
+                if len(tests) == 1 and len(inner.ifs) == 1 and inner.ifs[0] is tests[0] and ast.unparse(tests[0].args[1]) == kind and ast.unparse(tests[0].args[0]) == ast.unparse(inner.target) == ast.unparse(g.elt) and first_taken:
+                    table = gm.const_node(g.generators[0].iter.id)
+                    if isinstance(table, (ast.Tuple, ast.List)):
+                        order = [" | ".join(ast.unparse(e) for e in r.elts) if isinstance(r, ast.Tuple) else ast.unparse(r) for r in table.elts]
     want = ["ConstConstraint", "EnumConstraint", "RegexConstraint", "TypeConstraint", "DateConstraint | Iso8601Constraint"]
     ok = [o.replace("(", "").replace(")", "").replace(", ", " | ") for o in order] == want
     run.instance("R13.3", gm.loc(cc.node), f"compile_chain priority {order}", ok=ok)
